@@ -15,7 +15,8 @@ ID = 'C10'
 RULE = ('Part cells (complete enumeration): every cell of the five built-in libraries x 4 connection variants (all pins connected; every second '
         'input open; first output open; only the first input and last output connected) instantiated alone between port cells, then '
         'resolve_tlib_cells: must succeed, keep the port list, give a structurally valid circuit, and the truth table over ports and state elements '
-        '(all combinations) must equal the stand-alone simulation of the implementation circuit with unconnected inputs reading 0. '
+        '(all combinations) must equal the stand-alone simulation of the implementation circuit with unconnected inputs reading 0, '
+        'also after copy + pickle + eliminate_1to1_forks of the resolved circuit. '
         'Part hier (Hypothesis): hierarchical designs - 1..3 generated implementation circuits (multi-output, outputs read internally, inputs with '
         '0/1/many readers, internal flip-flops, no output, empty) instantiated 1..4 times with random pin subsets connected, top-level flip-flops, '
         'instance outputs feeding other instances - x transformation sequences over {copy, pickle, eliminate_1to1_forks, substitute(one instance), '
@@ -130,6 +131,17 @@ def prop_cells(case):
         for sa, si in zip(st_after, impl_state):
             if got[('s', sa)] != ref[('s', si)]:
                 raise Violation(f'{lib}.{name} variant {variant}: next state of {sa} differs from the implementation alone')
+    # composition: copy -> pickle -> eliminate_1to1_forks of the resolved circuit keeps ports, state elements and function
+    c2 = pickle.loads(pickle.dumps(c.copy()))
+    if canon_circuit(c2) != canon_circuit(c):
+        raise Violation(f'{lib}.{name} variant {variant}: copy/pickle of the resolved circuit differs from it')
+    c2.eliminate_1to1_forks()
+    structural(c2, f'{lib}.{name} variant {variant} after copy, pickle, eliminate_1to1_forks')
+    if [n.name for n in c2.io_nodes] != io_before or [n.name for n in c2.s_nodes[len(c2.io_nodes):]] != st_after:
+        raise Violation(f'{lib}.{name} variant {variant}: ports/state elements changed by copy, pickle, eliminate_1to1_forks')
+    got2 = sim_table(c2, [f'in_{p}' for p in cin], st_after, [f'out_{p}' for p in cout], combos)
+    if got2 != got:
+        raise Violation(f'{lib}.{name} variant {variant}: function changed by copy, pickle, eliminate_1to1_forks of the resolved circuit')
     labels = [lib, f'variant{variant}']
     if len(outs) >= 2: labels.append('multi_output')
     if impl_state: labels.append('sequential')
@@ -404,4 +416,4 @@ def prop_hier(case):
 
 
 PARTS = [Part('cells', prop_cells, enumerate=enum_cells, quick=(8, 0), thorough=(16, 0)),
-         Part('hier', prop_hier, strategy=hier_cases, quick=(8, 400), thorough=(16, 3000))]
+         Part('hier', prop_hier, strategy=hier_cases, quick=(8, 400), thorough=(16, 12000))]
